@@ -39,7 +39,10 @@ RESULT = st.fixed_dictionaries({
 
 def plan(tier):
     n, per = (10, 200) if tier == 'quick' else (14, 7000)
-    return [{'kind': 'export', 'n': per} for _ in range(n)] + [{'kind': 'write_line', 'n': 1500 if tier == 'quick' else 50000}]
+    sh = [{'kind': 'export', 'n': per} for _ in range(n)] + [{'kind': 'write_line', 'n': 1500 if tier == 'quick' else 50000}]
+    if tier == 'thorough':       # coverage-guided campaigns on the same tests (atheris), own seed and corpus each
+        sh += [{'kind': 'fuzz', 'target': 'export', 'runs': 15000} for _ in range(6)] + [{'kind': 'fuzz', 'target': 'write_line', 'runs': 30000}]
+    return sh
 
 
 def mk_contract(r):
@@ -164,15 +167,23 @@ def check_write_line(s, stats=None):
             stats.nt(['wl', s])
 
 
+def fuzz_target(name, stats):
+    """(test function, strategies) - shared by the in-process Hypothesis tier and the atheris tier."""
+    if name == 'export':
+        return (lambda results, header: check_export(results, header, stats),
+                {'results': st.lists(RESULT, min_size=1, max_size=6), 'header': st.booleans()})
+    s = st.one_of(st.text(alphabet=ALPHA, min_size=1, max_size=300), st.text(alphabet=ALPHA, min_size=250, max_size=260),
+                  st.text(alphabet=ALPHA, min_size=500, max_size=2000))
+    return (lambda s: check_write_line(s, stats), {'s': s})
+
+
 def run_shard(spec, seed, tier, stats):
     shrink = tier == 'thorough'
-    if spec['kind'] == 'export':
-        v = run_hypothesis(lambda results, header: check_export(results, header, stats),
-                           {'results': st.lists(RESULT, min_size=1, max_size=6), 'header': st.booleans()}, seed, spec['n'], shrink)
-    else:
-        s = st.one_of(st.text(alphabet=ALPHA, min_size=1, max_size=300), st.text(alphabet=ALPHA, min_size=250, max_size=260),
-                      st.text(alphabet=ALPHA, min_size=500, max_size=2000))
-        v = run_hypothesis(lambda s: check_write_line(s, stats), {'s': s}, seed, spec['n'], shrink)
+    if spec['kind'] == 'fuzz':
+        from vf.common.fuzz import run_fuzz_shard
+        return run_fuzz_shard(ID, spec, seed, stats)
+    fn, strategies = fuzz_target(spec['kind'], stats)
+    v = run_hypothesis(fn, strategies, seed, spec['n'], shrink)
     return [v] if v else []
 
 
